@@ -114,6 +114,7 @@ type VC struct {
 	recDecl    map[string]string // define-fun-rec line -> declare-fun line
 	constLens  map[string]int64  // slice terms with a literal length (varargs arrays)
 	boxed      map[string]Val    // interface term -> boxed value
+	entryVars  map[string]Val    // parameters of the function under verification (entry values)
 }
 
 func newVC(eng *Engine, name string, c *Contract) *VC {
